@@ -8,6 +8,9 @@ D = os.path.realpath(sys.argv[1]); ID = os.path.basename(D)
 meta = json.load(open(os.path.join(D, "meta.json")))
 props = sys.argv[2:] or [meta["property"]]
 WT = "/tmp/sr_repo"; ALT = "/tmp/verif_alt"
+# one run at a time (the scratch worktree and the scratch copy of /verif are shared so that their build caches are reused)
+import fcntl
+_lock = open("/tmp/seeded_run.lock", "w"); fcntl.flock(_lock, fcntl.LOCK_EX)
 def sh(cmd, **kw):
     return subprocess.run(cmd, shell=True, stdout=subprocess.PIPE, stderr=subprocess.STDOUT, text=True, **kw)
 sh("git -C /repo worktree remove --force %s; rm -rf %s" % (WT, WT))
